@@ -107,6 +107,22 @@ func c01Check(cross bool) *HistCheck {
 	return &HistCheck{
 		ID:    "C01",
 		Level: "model_checking",
+		// Every acknowledgement is judged where it is given. A history that ends in SW or CL is judged by Final (every
+		// prefix is a history of its own); an acknowledged `sync -wait` through the Store (SD) in the middle or at the
+		// end of a history would be repaired by the closing SyncAndWait of Final, so it is judged here.
+		AfterOp: func(s *scn.Scn, op string, o scn.Outcome) *scn.Problem {
+			if op != "SD" || !o.Ack {
+				return nil
+			}
+			p, err := s.AckOracle(false)
+			if err != nil {
+				return &scn.Problem{Kind: "harness", Detail: err.Error()}
+			}
+			if p != nil {
+				p.Kind = "store-sync-wait/" + p.Kind
+			}
+			return p
+		},
 		Final: func(s *scn.Scn) ([]*scn.Problem, string, error) {
 			if s.LSOpen {
 				o := s.Do("SW")
@@ -159,6 +175,9 @@ func c01(args []string) int {
 	layers = append(layers,
 		Layer{Name: "seeded/base/down-after-own-checkpoint", Cfg: cfgs["base"], Alphabet: strings.Fields("U CK:PASSIVE CK:TRUNCATE START NEW"), Depth: d(3, 5),
 			Seeds: [][]string{strings.Fields("W3 SW LC:PASSIVE SW CL"), strings.Fields("W3 SW LC:TRUNCATE SW CL"), strings.Fields("W3 SW LC:PASSIVE SW KILL")}},
+		// the Store-level wrapper behind the `sync -wait` request (SD) against syncs that already copied the WAL locally
+		Layer{Name: "seeded/base/store-sync-wait", Cfg: cfgs["base"], Alphabet: strings.Fields("SD W1 S RS LC:PASSIVE"), Depth: d(2, 4),
+			Seeds: [][]string{strings.Fields("W1 S"), strings.Fields("W1 SD W1 S"), strings.Fields("W3 SW U S")}},
 		Layer{Name: "exact/base/core", Cfg: cfgs["base"], Alphabet: alphaCore, Depth: d(3, 5)},
 		Layer{Name: "exact/min3/core", Cfg: cfgs["min3"], Alphabet: alphaCore, Depth: d(3, 4)},
 		Layer{Name: "exact/base/tx", Cfg: cfgs["base"], Alphabet: alphaTx, Depth: d(3, 5)},
